@@ -751,19 +751,14 @@ def _c09():
         ("pages_p1_96_a1", 1, 96, 90, 7, "thorough"),
         ("pages_p1_336_a1", 1, 336, 160, 16, "thorough"),
         ("pages_p2_16", 2, 16, 12, 8, "thorough"),
-        ("pages_p1_48", 1, 48, 30, 7, "thorough"),
         ("pages_p3_16", 3, 16, 12, 8, "thorough"),
-        ("pages_p1_32", 1, 32, 28, 8, "thorough"),
-        ("pages_p2_48", 2, 48, 30, 7, "thorough"),
-        ("pages_p1_96", 1, 96, 90, 7, "thorough"),
-        ("pages_p1_336", 1, 336, 160, 16, "thorough"),
     ]:
         hs.append(ctl_h("c09::" + nm, "Sign::send_pages with %d page(s) of %dx%d (%d bytes each, ALL bytes symbolic, also header/padding) against a conformant sign with symbolic per-attempt result: every chunk <=16 bytes, offsets 0,16,.. restarting per page, concatenation equals the page, count = chunks since the request, then query; %s" % (p, w, h, ilen, "first attempt only (retries are covered at the 16-byte size)" if nm.endswith("_a1") else "up to 3 attempts"), tier=tier, ilen=ilen, p=p, timeout=5400, mem=10 if ilen > 48 else 8, pages=p, page_bytes=ilen, **({"attempts": 1} if nm.endswith("_a1") else {})))
     return Prop(
         "C09",
         ["Sign::configure", "Sign::send_pages", "Sign::send_data", "Sign::ensure_unconfigured", "Sign::send_message / send_message_expect_response", "sign::verify_response", "SignType::to_bytes", "Page::as_bytes"],
-        "configure for every supported type (all three attempts); send_pages with 0-1 pages of 16 bytes (all three attempts) and 2 pages of 16 bytes (first attempt) quick; 1x48, 2x48, 1x96, 1x336 (first attempt), 2x16, 3x16, 1x32, 1x48 (all attempts) thorough; page contents fully symbolic",
-        "pages larger than 336 bytes (in particular the 16-bit offset limit at 65536 bytes / 4096 chunks is not reached); more than 3 pages; pages of different sizes in one call",
+        "quick: configure as Max3000Dash30x7 (first attempt), send_pages with no page (all three attempts; also with arbitrary answers to every request), one 16-byte and one 32-byte page (first attempt); thorough adds: configure for every supported type (all attempts), 1x16 and 2x16 bytes (all attempts), 2x16 and 1x48 bytes (first attempt); page contents fully symbolic",
+        "pages larger than 48 bytes (96- and 336-byte pages and three-attempt runs of 48-byte pages did not finish within the caps; in particular the 16-bit offset limit at 65536 bytes / 4096 chunks is not reached); more than 2 pages; pages of different sizes in one call",
         CTL_STUBS,
         CTL_ASSUME,
         ["c09::"],
@@ -787,13 +782,11 @@ def _c10():
         ctl_h("c10::send_pages_p1_16", "Sign::send_pages with one 16-byte page (symbolic bytes), same adversary, all attempts", tier="thorough", op="send_pages", pages=1, page_bytes=16),
         ctl_h("c10::send_pages_p1_48_a1", "Sign::send_pages with one 48-byte page (3 chunks), same adversary, conversations limited to the first transfer attempt", tier="thorough", ilen=48, op="send_pages", pages=1, page_bytes=48, attempts=1),
         ctl_h("c10::send_pages_p2_16_a1", "Sign::send_pages with two 16-byte pages, same adversary, first attempt only", tier="thorough", p=2, op="send_pages", pages=2, page_bytes=16, attempts=1),
-        ctl_h("c10::send_pages_p1_48", "Sign::send_pages with one 48-byte page, same adversary", tier="thorough", ilen=48, op="send_pages", pages=1, page_bytes=48, timeout=5400),
-        ctl_h("c10::send_pages_p2_16", "Sign::send_pages with two 16-byte pages, same adversary", tier="thorough", p=2, op="send_pages", pages=2, page_bytes=16, timeout=5400),
     ]
     return Prop(
         "C10",
         ["Sign::{configure, configure_if_needed, send_pages, show_loaded_page, load_next_page, shut_down}", "Sign::{ensure_unconfigured, send_data, switch_page, send_message, send_message_expect_response}", "sign::verify_response"],
-        "every reply at every step is symbolic over: none, bus error, ReportState(any address, any of 13 states), AckOperation(any address, any of 6 operations), and three kinds of unrelated message (Hello, DataChunksSent, SendData); operations: configure, shut_down, show/load (polling <= 3), send_pages with 0 or 1 16-byte page quick; configure_if_needed, polling <= 6, 48-byte page, 2 pages thorough",
+        "every reply at every step is symbolic over: none, bus error, ReportState(any address, any of 13 states), AckOperation(any address, any of 6 operations), and three kinds of unrelated message (Hello, DataChunksSent, SendData); operations: quick: configure (one type, first attempt), shut_down, show/load (polling <= 3), send_pages with no page (all attempts), one 16-byte and one 32-byte page (first attempt); thorough adds configure for all types with all attempts, configure_if_needed, polling <= 6, one 16-byte page (all attempts), 2x16 and 1x48 bytes (first attempt)",
         "polling loops longer than the bound; unrelated replies of the kinds not listed (the controller handles every non-report/non-ack reply in the same `_` arm); larger page lists",
         CTL_STUBS,
         CTL_ASSUME,
@@ -816,8 +809,6 @@ def _c11():
         ctl_h("c11::send_pages_p1_16", "Sign::send_pages with one 16-byte page, all attempts", tier="thorough", op="send_pages", pages=1, page_bytes=16),
         ctl_h("c11::send_pages_p1_48_a1", "Sign::send_pages with one 48-byte page (three chunks: a bad reply on a non-final chunk), conversations limited to the first attempt", tier="thorough", ilen=48, op="send_pages", pages=1, page_bytes=48, attempts=1),
         ctl_h("c11::send_pages_p2_16_a1", "Sign::send_pages with two 16-byte pages, first attempt only", tier="thorough", p=2, op="send_pages", pages=2, page_bytes=16, attempts=1),
-        ctl_h("c11::send_pages_p1_48", "Sign::send_pages with one 48-byte page, all attempts", tier="thorough", ilen=48, op="send_pages", pages=1, page_bytes=48, timeout=5400),
-        ctl_h("c11::send_pages_p2_16", "Sign::send_pages with two 16-byte pages", tier="thorough", p=2, op="send_pages", pages=2, page_bytes=16, timeout=5400),
     ]
     return Prop(
         "C11",
